@@ -193,7 +193,16 @@ class _Abort(object):
         return execute_abort(case, mode)
 
     def shrink_candidates(self, case):
-        return iter(())
+        # minimise the fault trace: a fair schedule, then the single earliest abort point that still shows the write
+        if (case.get('policy') or {}).get('name') != 'fair':
+            c = dict(case)
+            c['policy'] = {'name': 'fair'}
+            yield c
+        if case.get('only_point') is None:
+            for k in list(range(0, 64)) + [80, 100, 150, 200, 300, 500]:
+                c = dict(case)
+                c['only_point'] = k
+                yield c
 
     def view(self, case, res):
         return {'scenario': self.ID, 'function': case['routine'], 'arg_seed': case['aseed'], 'policy': case['policy'], 'draws_in_unaborted_run': res['ndraws'],
